@@ -1,10 +1,12 @@
 CONSTANTS
   MaxLines = 3
-  Mode = "geno"
   SampleChoices <- Samples1
-  Reduce = FALSE
+  Reduce = TRUE
   ChunkSizes = {1, 2}
   BootMax = 3
+  Mode = "geno"
+  FlagSet = "small"
+  AllProjDepth = 1
 SPECIFICATION Spec
 CHECK_DEADLOCK FALSE
 INVARIANT TypeOK
